@@ -19,7 +19,7 @@ Open Scope Z_scope.
 
 Definition gen_flags : srcflags :=
   mkFlags ng_input_conversion_copies ng_restore_in_finally nj_flattens_into_copy nj_perturbs_copies
-          grad_func_restores_in_finally mg_restores_in_finally mj_restores_in_finally.
+          grad_func_restores_in_finally mg_restores_in_finally mj_restores_in_finally fn_invoked_in_own_frame.
 
 Definition zbool (z : Z) : bool := negb (Z.eqb z 0).
 
